@@ -72,36 +72,71 @@ def renderNode : Node → String
 def renderNodes (ns : List Node) : String :=
   if ns.isEmpty then "-" else ".".intercalate (ns.map renderNode)
 
-def renderEmitter (i : Nat) (e : Emitter) : String :=
-  ";E" ++ toString i ++ "=[" ++ b01 e.code ++ ":" ++ toString e.instOpts ++ ":0:" ++ b01 e.comment ++ ":" ++
-    (if e.invalidRex then "2147483648" else "0") ++ ":" ++ toString e.instAlign ++ ":" ++ toString (archNum e.arch) ++ ":" ++
-    (match e.kind with
-     | .asm => (match e.sec with | none => "sec-" | some s => "sec" ++ toString s ++ "@" ++ toString e.off)
-     | k =>
-       "nodes" ++ renderNodes e.nodes ++ ":cur" ++ (match e.cursor with | none => "-1" | some c => toString c) ++
-       ":ln" ++ toString e.labelNodes ++ ":sn" ++ toString e.sectionNodes ++ ":p" ++ toString e.passes ++
-       (if k = .cmp then ":vr" ++ toString e.vregs ++ ":ja" ++ toString e.janns ++ ":fn0:pd0:wr0" else "")) ++ "]"
+/-- the members of an emitter that a dump prints first -/
+structure EHead where
+  code : Bool
+  instOpts : Nat
+  comment : Bool
+  invalidRex : Bool
+  instAlign : Nat
+  arch : Option Arch
 
-/-- the `code|…` part of a dump: a function of `w.obs` only (theorem `dumpCode_obs`) -/
-def dumpCode (w : World) : String :=
-  let h := w.h
-  "code|" ++ (match h.arch with | none => "uninit" | some .x64 => "x64" | some .x86 => "x86" | some .a64 => "a64") ++
-  ";secs=" ++ joinMap (enum h.secs) (fun (i, s) =>
+/-- the kind-specific members a dump prints -/
+inductive EView where
+  | asm (sec : Option Nat) (off : Nat)
+  | bld (nodes : List Node) (cursor : Option Nat) (ln sn p : Nat)
+  | cmp (nodes : List Node) (cursor : Option Nat) (ln sn p vr ja : Nat)
+
+def Emitter.head (e : Emitter) : EHead :=
+  { code := e.code, instOpts := e.instOpts, comment := e.comment, invalidRex := e.invalidRex, instAlign := e.instAlign, arch := e.arch }
+
+def Emitter.view (e : Emitter) : EView :=
+  match e.kind with
+  | .asm => .asm e.sec e.off
+  | .bld => .bld e.nodes e.cursor e.labelNodes e.sectionNodes e.passes
+  | .cmp => .cmp e.nodes e.cursor e.labelNodes e.sectionNodes e.passes e.vregs e.janns
+
+def renderBld (nodes : List Node) (cursor : Option Nat) (ln sn p : Nat) : String :=
+  "nodes" ++ renderNodes nodes ++ ":cur" ++ (match cursor with | none => "-1" | some c => toString c) ++
+    ":ln" ++ toString ln ++ ":sn" ++ toString sn ++ ":p" ++ toString p
+
+def renderView : EView → String
+  | .asm sec off => (match sec with | none => "sec-" | some s => "sec" ++ toString s ++ "@" ++ toString off)
+  | .bld nodes cursor ln sn p => renderBld nodes cursor ln sn p
+  | .cmp nodes cursor ln sn p vr ja => renderBld nodes cursor ln sn p ++ ":vr" ++ toString vr ++ ":ja" ++ toString ja ++ ":fn0:pd0:wr0"
+
+def renderHV (i : Nat) (hd : EHead) (v : EView) : String :=
+  ";E" ++ toString i ++ "=[" ++ b01 hd.code ++ ":" ++ toString hd.instOpts ++ ":0:" ++ b01 hd.comment ++ ":" ++
+    (if hd.invalidRex then "2147483648" else "0") ++ ":" ++ toString hd.instAlign ++ ":" ++ toString (archNum hd.arch) ++ ":" ++
+    renderView v ++ "]"
+
+def renderEmitter (i : Nat) (e : Emitter) : String := renderHV i e.head e.view
+
+/-- holder part of the `code|…` dump, from the six observable members -/
+def dumpH (arch : Option Arch) (secs : List Sec) (labels : List LabelE) (relocs : List Reloc) (unres : Nat) (attached : List Nat) : String :=
+  "code|" ++ (match arch with | none => "uninit" | some .x64 => "x64" | some .x86 => "x86" | some .a64 => "a64") ++
+  ";secs=" ++ joinMap (enum secs) (fun (i, s) =>
     "[" ++ toString i ++ ":" ++ hexBytes s.name ++ ":" ++ toString s.flags ++ ":" ++ toString s.align ++ ":" ++ toString s.order ++ ":" ++
     (if s.hasOffset then "0" else "none") ++ ":0:" ++ hexBytes s.bytes ++ "]") ++
-  ";order=" ++ joinMap (enum h.secs) (fun (i, _) => toString i ++ ",") ++
-  ";labels=" ++ joinMap (enum h.labels) (fun (i, l) =>
+  ";order=" ++ joinMap (enum secs) (fun (i, _) => toString i ++ ",") ++
+  ";labels=" ++ joinMap (enum labels) (fun (i, l) =>
     "[" ++ toString i ++ ":" ++ toString l.ltype ++ ":" ++ hexBytes l.name ++ ":" ++
     (match l.bound with
      | some (s, o) => "b" ++ toString s ++ "+" ++ toString o
      | none => "u" ++ joinMap l.fixups renderFixup) ++ "]") ++
   ";byname_bad=0" ++
-  ";relocs=" ++ joinMap (enum h.relocs) (fun (i, r) =>
+  ";relocs=" ++ joinMap (enum relocs) (fun (i, r) =>
     "[" ++ toString i ++ ":" ++ toString r.rtype ++ ":" ++ toString r.srcSec ++ ":" ++ toString r.srcOff ++ ":" ++ optStr r.tgtSec ++ ":" ++
     toString r.payload ++ ":" ++ toString r.size ++ "]") ++
-  ";unres=" ++ toString h.unres ++ ";addrtab=0" ++
-  ";att=" ++ joinMap h.attached (fun i => toString i ++ ",") ++
-  joinMap (enum w.es) (fun (i, e) => renderEmitter i e)
+  ";unres=" ++ toString unres ++ ";addrtab=0" ++
+  ";att=" ++ joinMap attached (fun i => toString i ++ ",")
+
+def dumpHolder (h : Holder) : String := dumpH h.arch h.secs h.labels h.relocs h.unres h.attached
+
+def dumpEmitters (es : List Emitter) : String := joinMap (enum es) (fun p => renderEmitter p.1 p.2)
+
+/-- the `code|…` part of a dump: a function of `w.obs` only (theorem `dumpCode_obs`) -/
+def dumpCode (w : World) : String := dumpHolder w.h ++ dumpEmitters w.es
 
 /-- the `aux|…` part: retained capacity and logging state (tied to the implementation, never compared across histories) -/
 def dumpAux (w : World) : String :=
@@ -147,5 +182,15 @@ def noDeadRefs (dump : String) : Option String :=
   | some n, some m => if n != 0 then some "pd (nodes still pointing into the reset pass arena)"
                       else if m != 0 then some "wr (virtual registers still tied to a work register)" else none
   | _, _ => none
+
+/-- last function of a `fnbytes` answer (`fn:<hex of function 1>:<hex of function 2>…`) -/
+def lastFn (s : String) : String := ((s.splitOn ":").getLast?).getD ""
+
+/-- **a later function does not inherit from earlier ones**: the bytes of the last function compiled after other functions
+    in the same Compiler (one `finalize`) equal its bytes when it is compiled alone. `none` = fine. -/
+def laterFunctionIndependent (afterOthers alone : String) : Option String :=
+  if !afterOthers.startsWith "fn:" || !alone.startsWith "fn:" then some "malformed"
+  else if lastFn alone == "" || lastFn alone == "unbound" then some "not compiled"
+  else if lastFn afterOthers == lastFn alone then none else some "function bytes differ"
 
 end AsmjitVerif.Reuse
